@@ -23,6 +23,16 @@ def make_body(rng, blen, nlstyle):
         pos = sorted(set(rng.randrange(blen) for _ in range(rng.randint(1, 8)))) if blen else []
     for i in pos:
         b[i] = 0x0A
+    # bytes that other notions of "line" break at (str.splitlines, universal newlines) but a binary file does not:
+    # bare CR, CR before LF, VT, FF, FS/GS/RS, NEL
+    if blen and nlstyle != "all":
+        for _ in range(min(12, 1 + blen // 40)):
+            i = rng.randrange(blen)
+            if b[i] != 0x0A:
+                b[i] = rng.choice([0x0D, 0x0D, 0x0B, 0x0C, 0x1C, 0x1D, 0x1E, 0x85])
+        for i in pos[:6]:
+            if i > 0 and b[i - 1] != 0x0A and rng.random() < 0.3:
+                b[i - 1] = 0x0D
     return bytes(b), sorted(set(pos))
 
 
